@@ -73,7 +73,7 @@ theorem insertMod_filter (q : String) (m : Mod) (xs : List Mod) :
       by_cases hm : m.path = q
       · have hx : ¬ x.path = q := by
           intro e; rw [e, ← hm] at hlt; exact String.lt_irrefl _ hlt
-        simp [List.filter_cons, hm, hx]
+        simp [hm, hx]
       · simp [List.filter_cons, hm]
     · rfl
 
@@ -93,10 +93,10 @@ theorem eq_of_sorted_of_filter_eq : ∀ {xs ys : List Mod}, PathSorted xs → Pa
   | [], [], _, _, _ => rfl
   | [], y :: ys, _, _, h => by
     have := h y.path
-    simp [List.filter_cons] at this
+    simp at this
   | x :: xs, [], _, _, h => by
     have := h x.path
-    simp [List.filter_cons] at this
+    simp at this
   | x :: xs, y :: ys, hx, hy, h => by
     have hx' := List.pairwise_cons.mp hx
     have hy' := List.pairwise_cons.mp hy
@@ -106,7 +106,7 @@ theorem eq_of_sorted_of_filter_eq : ∀ {xs ys : List Mod}, PathSorted xs → Pa
       · exfalso
         have h1 := h x.path
         have : x ∈ (y :: ys).filter (fun z => z.path = x.path) := by
-          rw [← h1]; simp [List.filter_cons]
+          rw [← h1]; simp
         have hm := (List.mem_filter.mp this).1
         rcases List.mem_cons.mp hm with rfl | hm
         · exact String.lt_irrefl _ hlt
@@ -115,7 +115,7 @@ theorem eq_of_sorted_of_filter_eq : ∀ {xs ys : List Mod}, PathSorted xs → Pa
       · exfalso
         have h1 := h y.path
         have : y ∈ (x :: xs).filter (fun z => z.path = y.path) := by
-          rw [h1]; simp [List.filter_cons]
+          rw [h1]; simp
         have hm := (List.mem_filter.mp this).1
         rcases List.mem_cons.mp hm with rfl | hm
         · exact String.lt_irrefl _ hgt
